@@ -1,6 +1,7 @@
 import BfeVerif.C12.Proofs
 import BfeVerif.C12.ComposeProofs
 import BfeVerif.C11.Props
+import BfeVerif.C12.FullProofs
 /-!
   C12 — cluster lookup combines basic and advanced rules as documented.
   Property theorems only.
@@ -137,6 +138,79 @@ theorem C12_compose_C11_C18 (o : C18.Orc) (rules : List C11.Rule) (hok : C11.loa
   refine ⟨res, h1, ?_⟩
   rw [h2, C11.C11_lookup_refines rules hok host path]
   rfl
+
+/-- The whole route through one loaded configuration (`HostTable.Lookup`): for a well-formed host table, a request
+    host that is not a bracketed IPv6 literal, loader-accepted basic rules and advanced conditions C18 models,
+    the product is the documented one (host table > VIP > default) and the cluster is the documented one for THAT
+    product's tables (documented basic precedence, else first matching advanced rule, else none). -/
+theorem C12_full_lookup (lc : Char → Char) (o : C18.Orc) (c : Conf) (q : Query)
+    (hwf : C10.WF lc c.entries) (hb : (C10.lower lc q.host).head? ≠ some '[')
+    (hbasic : ∀ p pr rules, c.routes.lookup p = some pr → pr.basic = some rules → C11.loadOk rules = true)
+    (hadv : ∀ p pr es, c.routes.lookup p = some pr → pr.adv = some es →
+      (∀ e ∈ es, (eval o q.req e.cond).isSome = true) ∧ (∀ e ∈ es, e.cluster ≠ "")) :
+    ∃ res, fullLookup lc o c q = some res ∧
+      res.map (fun x => (x.1, x.2.toOption)) = fullSpec lc o c q := by
+  unfold fullLookup fullSpec
+  rw [C10.C10_chain_partial lc c.entries c.vipTable c.dflt q.host q.vip hwf hb]
+  cases C10.specLookup lc c.entries c.vipTable c.dflt q.host q.vip with
+  | none => exact ⟨none, rfl, rfl⟩
+  | some r =>
+    dsimp only
+    -- the basic stage of this product
+    have hbas : (basicOf (c.routes.lookup r.product) q).join = specBasicOf (c.routes.lookup r.product) q := by
+      unfold basicOf specBasicOf
+      cases hpr : c.routes.lookup r.product with
+      | none => rfl
+      | some pr =>
+        cases hbs : pr.basic with
+        | none => simp [hbs]
+        | some rules =>
+          simp only [Option.bind_some, hbs, Option.join_some]
+          exact C11.C11_lookup_refines rules (hbasic _ _ _ hpr hbs) q.host (q.path.getD [])
+    rw [← hbas]
+    cases hadvo : (c.routes.lookup r.product).bind (·.adv) with
+    | none =>
+      refine ⟨some (r, lookupCluster (basicOf (c.routes.lookup r.product) q) none), by simp [lookupClusterE], ?_⟩
+      simp only [Option.map_some, Option.getD_none, specLookupE_nil]
+      rw [C12_refines _ none (by intro x hx; simp at hx)]
+      rfl
+    | some es =>
+      obtain ⟨pr, hpr, hes⟩ : ∃ pr, c.routes.lookup r.product = some pr ∧ pr.adv = some es := by
+        cases hpr : c.routes.lookup r.product with
+        | none => simp [hpr] at hadvo
+        | some pr => exact ⟨pr, rfl, by simpa [hpr] using hadvo⟩
+      obtain ⟨hev, hne⟩ := hadv _ _ _ hpr hes
+      obtain ⟨res, h1, h2⟩ := C12_compose_C18 o (basicOf (c.routes.lookup r.product) q) es q.req hev hne
+      refine ⟨some (r, res), by simp [h1], ?_⟩
+      simp only [Option.map_some, Option.getD_some, h2]
+
+/-- Reload histories: after ANY sequence of reloads (same object), fresh loads (new object) and queries, the
+    current tables are those of the LAST ACCEPTED configuration — a rejected reload (undecodable file, loader
+    error, failed cross-file check) changes nothing, a query changes nothing, nothing of earlier configurations
+    survives an accepted one. -/
+theorem C12_history_last_accepted (s : HState) (steps : List Step) :
+    (runSteps s steps).cur =
+      match (steps.filterMap accepts).getLast? with
+      | some c => some c
+      | none => s.cur := runSteps_cur s steps
+
+/-- A rejected step leaves the whole state (current and held tables) untouched. -/
+theorem C12_rejected_reload_changes_nothing (s : HState) (st : Step) (h : accepts st = none) : step s st = s :=
+  step_rejected s st h
+
+/-- The object replaced by an accepted fresh load keeps ITS tables: a request still holding it is answered from
+    the old configuration, whatever is loaded into the new object afterwards by reloads. -/
+theorem C12_held_tables_stable (s : HState) (c : Conf) (h : (c.loadOk && c.checkOk) = true) (later : List Conf) :
+    (runSteps (step s (.fresh c)) (later.map Step.reload)).held = s.cur := by
+  have h0 : (step s (.fresh c)).held = s.cur := by simp [step, h]
+  generalize step s (.fresh c) = s1 at h0
+  induction later generalizing s1 with
+  | nil => exact h0
+  | cons c' rest ih =>
+    simp only [List.map_cons, runSteps, List.foldl_cons]
+    apply ih
+    simp only [step]
+    split <;> exact h0
 
 /-! non-vacuity: the documented example of route.md (www.c.com → ADVANCED_MODE → Demo-D1 / Demo-D / Demo-E) -/
 example : WF [⟨false, "Demo-D1"⟩, ⟨true, "Demo-D"⟩, ⟨true, "Demo-E"⟩] := (wfB_iff _).mp (by decide)
